@@ -740,6 +740,11 @@ def run(ctx: Ctx) -> None:
     rep.rule("C09.R23", "both visitors follow a function referenced by name unless visit_Call has handled that name (the seen-names test is `not in`)")
     n23 = reference_skips_seen(ctx, "C09.R23")
     rep.floor("C09.R23", n23, 2)
+    if rep.prop == "C09":
+        from .c11 import method_on_result_is_not_the_call
+        rep.rule("C09.R25", "as C11.R19: the arguments of a method called on a loaded value are not taken for a store path (`dds.load(p).startswith('/zzz')` does not make '/zzz' a dependency)")
+        n25 = method_on_result_is_not_the_call(ctx, "C09.R25")
+        rep.floor("C09.R25", n25, 2)
     rep.rule("C09.R24", "the sources of one combined signature (calls, loads, arguments ...) use disjoint key families: equal pairs would cancel in the exclusive-or")
     n24 = key_families_disjoint(ctx, "C09.R24")
     rep.floor("C09.R24", n24, 2)
